@@ -346,6 +346,7 @@ class Trace:
         self.refreads = {}      # elem -> set of (owner sid | 'model', name, how) of one execution
         self.cached = {}        # elem -> cached flag
         self.failed = {}        # elem -> (calls, refreads) of an execution that raised
+        self.failed_seq = {}    # elem -> [(calls, refreads)] of every execution that raised, in order
         self.values = {}        # elem -> value of a completed execution
         self.handled = 0        # exceptions caught by formulas themselves
         self.unwound = []       # elements the escaping exception passed through, innermost first
@@ -404,14 +405,23 @@ class Evaluator:
     # -- elements -------------------------------------------------------------
     def eval_elem(self, ctx, name, key, definer, cdef):
         elem = (ctx.sid, name, key)
-        self._note_call(elem)
         if cdef.cached:
             hash(key)
             inp = self.m.inputs.get((ctx.sid, name))
             if inp is not None and key in inp:
+                self._note_call(elem)
                 return inp[key]
             if self.held is not None and elem in self.held:
+                self._note_call(elem)
                 return self.held[elem]
+            if self.m.maxdepth is not None and elem in self.trace.values and elem in self.trace.executed:
+                # under a recursion limit the depth of a chain depends on what was already computed during this
+                # evaluation: an element completed earlier is served without a new frame
+                self._note_call(elem)
+                return self.trace.values[elem]
+        if self.m.maxdepth is not None and len(self.stack) > self.m.maxdepth:
+            raise DeepReferenceError("depth")       # the call never starts: nothing is recorded for it
+        self._note_call(elem)
         rec = self._push(elem)
         self.trace.cached[elem] = cdef.cached
         try:
@@ -421,9 +431,30 @@ class Evaluator:
                 from .expr import term_lines
                 tl = term_lines(cdef.as_dict())
                 vals = []
+                guards = cdef.guards or []
                 for j, t in enumerate(cdef.terms):
                     self.trace.curline[elem] = tl[j]
-                    vals.append(self.ev(t, ctx, env))
+                    g = guards[j] if j < len(guards) else 0
+                    if isinstance(g, list):
+                        # try: a = t / finally: _ = g[1]   (the clean-up runs on both paths; a failure inside it
+                        # replaces the one that was passing)
+                        s0 = len(self.trace.unwound)
+                        failed_before = True
+                        try:
+                            vals.append(self.ev(t, ctx, env))
+                            failed_before = False
+                        finally:
+                            s1 = len(self.trace.unwound)
+                            self.trace.curline[elem] = tl[j] + 2
+                            try:
+                                self.ev(g[1], ctx, env)
+                            except BaseException as exc2:
+                                if failed_before and not isinstance(exc2, Budget):
+                                    del self.trace.unwound[s0:s1]
+                                raise
+                            self.trace.curline[elem] = tl[j]
+                    else:
+                        vals.append(self.ev(t, ctx, env))
                 self.trace.curline[elem] = tl[-1]       # the return line adds them up
                 value = vals[0] if vals else 0
                 for v in vals[1:]:
@@ -444,6 +475,7 @@ class Evaluator:
         except BaseException as exc:
             if not isinstance(exc, Budget):
                 self.trace.failed.setdefault(elem, (rec[1], rec[2]))
+                self.trace.failed_seq.setdefault(elem, []).append((rec[1], rec[2]))
                 self.trace.unwound.append(elem)
             raise
         finally:
@@ -512,6 +544,7 @@ class Evaluator:
         except BaseException as exc:
             if not isinstance(exc, Budget):
                 self.trace.failed.setdefault(elem, (rec[1], rec[2]))
+                self.trace.failed_seq.setdefault(elem, []).append((rec[1], rec[2]))
                 self.trace.unwound.append(elem)
                 self.trace.curline[elem] = 1 if f.get("form", "lambda") == "lambda" else 2
             raise
@@ -673,13 +706,16 @@ class Evaluator:
                 raise FAULT_KINDS[kind]("armed " + e[1])
             return 0
         if k == "try":
+            mark = len(self.trace.unwound)
             try:
                 return self.ev(e[1], ctx, env)
             except Budget:
                 raise
             except Exception:
                 self.trace.handled += 1
-                del self.trace.unwound[:]       # that failure was handled: it is not the escaping chain
+                # that failure was handled: it is not the escaping chain (entries of a failure that is still
+                # passing - we may be inside a finally block - stay)
+                del self.trace.unwound[mark:]
                 return self.ev(e[2], ctx, env)
         if k == "failx":
             tag = e[1] + (str(env[e[2]]) if e[2] else "")
